@@ -242,6 +242,10 @@ fn large_cases(t: Tier) -> Vec<LargeSpec> {
     for (k, &count) in [255u32, 256, 257, 1000, 4096, 65_535, 65_536, 65_537, 70_000].iter().enumerate() {
         v.push(LargeSpec { count, len: 1 + (k as u32 % 4), zeros: (k as u32 / 2) % 2, sc4: k % 2 == 1, trail: 0, fill: (k % 3) as u8 });
     }
+    // every unit count from 1 to 520 (a small-vector, ring or table that switches representation at some count)
+    for count in 1u32..=520 {
+        v.push(LargeSpec { count, len: 1 + (count % 5), zeros: count % 2, sc4: count % 3 == 0, trail: count % 4, fill: (count % 3) as u8 });
+    }
     for (k, &zeros) in [5u32, 100, 255, 256, 257, 1000, 65_535, 65_536, 70_000, 1 << 20].iter().enumerate() {
         v.push(LargeSpec { count: 3, len: 5, zeros, sc4: k % 2 == 0, trail: if k % 2 == 0 { zeros } else { 0 }, fill: 0 });
     }
